@@ -60,6 +60,7 @@ type Opts struct {
 	AllowEndsMatch bool // accept blocks that end right after a match
 	LegacyLoose    bool // legacy: do not require non-final blocks to decode to exactly 8 MiB; accept the kernel size trailer
 	AllowTrailing  bool // stop after one frame and report Consumed; otherwise trailing bytes are an error
+	IgnoreDictID   bool // treat the dictionary-id flag as an unused bit (what the implementation under test does)
 	Prefix         bool // prefix mode: running out of input at a block boundary (before a size word) is not an error
 }
 
@@ -169,6 +170,9 @@ func Parse(b []byte, o Opts) (*Parsed, error) {
 		}
 		p.ContentSize = le64(b[pos:])
 		add("csize", 8, -1)
+	}
+	if p.DictID && o.IgnoreDictID {
+		p.DictID = false
 	}
 	if p.DictID {
 		if err := need(4, "dictionary id"); err != nil {
